@@ -72,6 +72,24 @@ class C01(PropertyCheck):
             m, kind = gen.random_mask(rng, h, w)
             yield {"tag": f"idx_random_{kind}", "kind": "index", "mask": mask_json(m)}
             yield from self._constructor_cases(rng, m, f"con_random_{kind}")
+        # 3b. in-place edit histories: build, read both views, write one entry in place, read again
+        ne = 40 if tier == "quick" else 300
+        for _ in range(ne):
+            h, w = rng.randint(2, 6), rng.randint(2, 6)
+            m, kind = gen.random_mask(rng, h, w)
+            nat = gen.distinct_ints(rng, h * w)
+            nat = [0 if m[i // w][i % w] else v for i, v in enumerate(nat)]
+            slim = [nat[i] for i in range(h * w) if not m[i // w][i % w]]
+            for struct in ("array", "grid"):
+                for form in ("slim", "native"):
+                    vals = slim if form == "slim" else nat
+                    k = rng.randrange(len(vals))
+                    new = rng.randint(100, 200)
+                    values = qlist(vals) if struct == "array" else [[q(v), q(-3 * v + 1)] for v in vals]
+                    newv = q(new) if struct == "array" else [q(new), q(-new)]
+                    yield {"tag": f"edit_{kind}", "kind": "edit", "struct": struct, "mask": mask_json(m),
+                           "form": form, "store_native": form == "native", "values": values,
+                           "edit_index": k, "edit_value": newv}
         # 4. 1-D
         for n1 in range(1, 7 if tier == "quick" else 10):
             for bits in range((1 << n1) - 1):
@@ -152,31 +170,59 @@ class C01(PropertyCheck):
             }
         h, w = m.shape
         sn = case["store_native"]
+        if kind == "edit":
+            struct = case["struct"]
+            if struct == "array":
+                vals = np.array([float(Fraction(v)) for v in case["values"]])
+                if case["form"] == "native":
+                    vals = vals.reshape(h, w)
+                s = aa.Array2D(values=vals, mask=mask, store_native=sn)
+            else:
+                vals = np.array([[float(Fraction(a)), float(Fraction(b))] for a, b in case["values"]])
+                if case["form"] == "native":
+                    vals = vals.reshape(h, w, 2)
+                s = aa.Grid2D(values=vals, mask=mask, store_native=sn)
+            _ = np.asarray(s.native.array).copy(), np.asarray(s.slim.array).copy()  # warm any cache
+            k = case["edit_index"]
+            idx = k if case["form"] == "slim" else (k // w, k % w)
+            if struct == "array":
+                s[idx] = float(Fraction(case["edit_value"]))
+                flat = lambda a: qlist(np.asarray(a).ravel())
+            else:
+                s[idx] = [float(Fraction(case["edit_value"][0])), float(Fraction(case["edit_value"][1]))]
+                flat = lambda a: [qlist(p) for p in np.asarray(a).reshape(-1, 2)]
+            return {"slim": flat(s.slim.array), "native": flat(s.native.array)}
         if kind == "array":
             vals = np.array([float(Fraction(v)) for v in case["values"]])
             if case["form"] == "native":
                 vals = vals.reshape(h, w)
+            before = vals.copy()
             s = aa.Array2D(values=vals, mask=mask, store_native=sn)
             stored = np.asarray(s.array)
-            return {
+            out = {
                 "stored": "native" if stored.ndim == 2 else "slim",
                 "slim": qlist(np.asarray(s.slim.array).ravel()),
                 "native": qlist(np.asarray(s.native.array).ravel()),
             }
+            out["input_unchanged"] = bool((vals == before).all())
+            return out
         vals = np.array([[float(Fraction(a)), float(Fraction(b))] for a, b in case["values"]])
         if case["form"] == "native":
             vals = vals.reshape(h, w, 2)
+        before = vals.copy()
         if kind == "grid":
             s = aa.Grid2D(values=vals, mask=mask, store_native=sn)
         else:
             grid = aa.Grid2D.from_mask(mask=mask)
             s = aa.VectorYX2D(values=vals, grid=grid, mask=mask, store_native=sn)
         stored = np.asarray(s.array)
-        return {
+        out = {
             "stored": "native" if stored.ndim == 3 else "slim",
             "slim": [qlist(p) for p in np.asarray(s.slim.array).reshape(-1, 2)],
             "native": [qlist(p) for p in np.asarray(s.native.array).reshape(-1, 2)],
         }
+        out["input_unchanged"] = bool((vals == before).all())
+        return out
 
     # ------------------------------------------------------------------ model
     def model_requests(self, case, impl_obs):
@@ -199,6 +245,12 @@ class C01(PropertyCheck):
                 {"op": "c01.array1d", "dir": "native_from", "bits": case["bits"],
                  "values": [v for v, b in zip(case["native"], case["bits"]) if b == "0"]},
             ]
+        if kind == "edit":
+            vals = list(case["values"])
+            vals[case["edit_index"]] = case["edit_value"]
+            op = "c01.array_convert" if case["struct"] == "array" else "c01.grid_convert"
+            return [{"op": op, "mask": case["mask"], "form": case["form"], "values": vals,
+                     "store_native": case["store_native"]}]
         op = "c01.array_convert" if kind == "array" else "c01.grid_convert"
         return [{"op": op, "mask": case["mask"], "form": case["form"],
                  "values": case["values"], "store_native": case["store_native"]}]
@@ -218,6 +270,8 @@ class C01(PropertyCheck):
             return {"slim": responses[0]["ok"], "nfs": responses[1]["ok"],
                     "native_back": responses[2]["ok"]}
         r = responses[0]["ok"]
+        if kind == "edit":
+            return {"slim": r["slim"], "native": r["native"]}
         st = r["stored"]
         return {"stored": st["stored"] if isinstance(st, dict) else st, "slim": r["slim"],
                 "native": r["native"]}
@@ -234,6 +288,8 @@ class C01(PropertyCheck):
             sub = {"slim": impl_obs["slim"], "nfs": impl_obs["nfs"],
                    "native_back": impl_obs["native_back"]}
             return cmp.diff(sub, model_obs)
+        if isinstance(impl_obs, dict) and "input_unchanged" in impl_obs:
+            impl_obs = {k: v for k, v in impl_obs.items() if k != "input_unchanged"}
         return cmp.diff(impl_obs, model_obs)
 
     # ------------------------------------------------------------------ oracle (independent of the model)
@@ -291,6 +347,21 @@ class C01(PropertyCheck):
             if obs["pixels_in_mask"] != len(unm):
                 return False, "pixels_in_mask wrong"
             return True, ""
+        if kind == "edit":
+            arr = case["struct"] == "array"
+            conv = (lambda x: Fraction(x)) if arr else (lambda x: (Fraction(x[0]), Fraction(x[1])))
+            vals = [conv(v) for v in case["values"]]
+            vals[case["edit_index"]] = conv(case["edit_value"])
+            zero = 0 if arr else (0, 0)
+            exp_slim = vals if case["form"] == "slim" else [vals[i] for i in unm]
+            exp_native = [zero] * (h * w)
+            for k, i in enumerate(unm):
+                exp_native[i] = exp_slim[k]
+            if [conv(v) for v in obs["slim"]] != exp_slim:
+                return False, f"after an in-place write .slim does not list the structure's current unmasked values ({case['struct']}, stored {case['form']})"
+            if [conv(v) for v in obs["native"]] != exp_native:
+                return False, f"after an in-place write .native does not hold the structure's current values (stale or unmasked junk) ({case['struct']}, stored {case['form']})"
+            return True, ""
         if kind == "array":
             vals = [Fraction(v) for v in case["values"]]
             conv = lambda x: Fraction(x)
@@ -311,6 +382,8 @@ class C01(PropertyCheck):
             return False, f".slim is not the row-major list of unmasked values (form={case['form']}, store_native={case['store_native']})"
         if got_native != exp_native:
             return False, f".native does not hold the values at their pixels with zeros at masked positions (form={case['form']}, store_native={case['store_native']})"
+        if obs.get("input_unchanged") is False:
+            return False, f"the {kind} constructor wrote into the array passed to it (form={case['form']}, store_native={case['store_native']})"
         want = "native" if case["store_native"] else "slim"
         if obs["stored"] != want:
             return False, f"stored form {obs['stored']} != requested {want}"
